@@ -7,7 +7,7 @@ ID=$1; DEMO=$2; PKG=$3; RUN=$4
 export GOFLAGS=-mod=mod GOPROXY=off
 WT=/tmp/confirm-$ID
 rm -rf $WT; git -C /repo worktree prune; git -C /repo worktree add -q --detach $WT HEAD || exit 2
-OUT=/tmp/seed/$ID-out
+OUT=${SEEDROOT:-/tmp/seed}/$ID-out
 cd $WT && git apply $OUT/patch.diff || { echo "APPLY-FAILED"; exit 2; }
 if git diff --name-only | grep -q '_test.go'; then echo "TOUCHES-TESTS"; fi
 go build ./... || { echo "BUILD-FAILED"; exit 2; }
